@@ -5,9 +5,9 @@ import check as K
 TB_COMMON = [
     "Lean 4.33.0 kernel; axioms per theorem listed under coverage.theorems (subset of propext, Classical.choice, Quot.sound)",
     "hand-written Lean model of the Rust code, tied to /repo on every run by the correspondence check (bwh in-process vs bwmodel)",
-    "tools/translate.py for the tables regenerated from the source (extension map, detector list, severity enum, constraint prefixes, Lua mode match)",
+    "tools/translate.py for the tables regenerated from the source (extension map, detector list, severity enum, constraint prefixes, Lua mode match, AI literals), one table at a time; the extension table and the detector list are also compared with the running implementation (`bwh tables`) on every run",
     "harness generators / canonicalisation (harness/src), check.py comparison",
-    "not modelled: tree-sitter grammars (comment node ranges are read from tree-sitter by the harness), regex crate (oracle table shipped per case), similar (op lists shipped per case)",
+    "not modelled: tree-sitter grammars (the harness reads the syntax tree from the same grammar crates and ships it restricted to the nodes of interest and their ancestors; the cursor walk over it IS modelled), regex crate (oracle table shipped per case), similar (op lists shipped per case), clap (the value parsers and Args::validate are modelled, the argv splitting is exercised in-process and through the binary)",
 ]
 
 
